@@ -30,7 +30,7 @@ class DirFamily(Family):
                "bufio.Reader.ReadString, io.Seeker, sort.Slice modelled (records / drop / merge sort on distinct names)",
                "the in-package shim (in-memory fileSystem / fsWatcher) is part of the trusted harness"]
     assumptions = ["events: append -> Write, rotate -> Rename then Create of an empty file, truncate -> Write; a no-op event after each is the barrier"]
-    rule = "0..1000 rotated files at start (audit.log.N, non-matching names, non-numeric suffixes) x sequences of append / partial append / rotate / truncate with lines beyond the 4096-byte buffer; non-trivial = >=2 lines delivered after at least one operation"
+    rule = "0..1000 rotated files at start (audit.log.N, non-matching names, non-numeric suffixes) x sequences of append / partial append / rotate / truncate with lines beyond the 4096-byte buffer; appends whose first read attempt fails with a transient error and is retried; non-trivial = >=2 lines delivered after at least one operation"
 
     def harness_line(self, c):
         return "%s %s %s" % (c["id"], ",".join("%s=%s" % (n, hx(b)) for n, b in c["files"]), ";".join(c["ops"]) or "-")
@@ -57,10 +57,11 @@ class DirFamily(Family):
         return out
 
     def stats(self, cases, recs):
-        d = {"ops": {"a": 0, "rot": 0, "trunc": 0, "early": 0}, "initial_files": {}, "partial_appends": 0}
+        d = {"ops": {"a": 0, "rot": 0, "trunc": 0, "early": 0, "append_first_read_fails": 0, "append_open_fails": 0}, "initial_files": {}, "partial_appends": 0}
         for c in cases:
             for o in c["ops"]:
-                k = "a" if o.startswith("a:") else ("early" if o.startswith("early:") else o)
+                k = "a" if o.startswith("a:") else ("early" if o.startswith("early:") else
+                     "append_first_read_fails" if o.startswith("fa:") else "append_open_fails" if o.startswith("fo:") else o)
                 d["ops"][k] += 1
                 if o.startswith("a:") and not o.endswith("0a"):
                     d["partial_appends"] += 1
@@ -128,6 +129,17 @@ class DirFamily(Family):
             c = self.one(rng)
             total = sum(b.count("\n") for _, b in c["files"])
             c["ops"] = ["early:%d" % rng.below(total + 1)] + c["ops"]
+            cs.append(c)
+        # transient I/O errors: the first attempt to read an append fails before a byte was read (the first Read, or the
+        # Open) and the reader retries with its back-off (0.25..0.75 s each)
+        for _ in range(8 if tier == "quick" else 80):
+            c = self.one(rng)
+            while sum(o.startswith("a:") for o in c["ops"]) < 2:
+                c["ops"].append("a:" + hx(line(rng, long_ok=False) + "\n"))
+            idx = [i for i, o in enumerate(c["ops"]) if o.startswith("a:")]
+            for i in [rng.choice(idx)] + ([rng.choice(idx)] if rng.below(3) == 0 else []):
+                if c["ops"][i].startswith("a:"):
+                    c["ops"][i] = rng.choice(["fa:", "fa:", "fo:"]) + c["ops"][i][2:]
             cs.append(c)
         cs.append(self.one(rng, big=True))
         # fixed witnesses of the two repaired defects stay in the corpus
